@@ -67,7 +67,7 @@ P = {
 }
 
 # harnesses that are committed but whose triage on the unchanged tree is still in progress
-NOT_YET = {"C11"}
+NOT_YET = set()
 
 BUILT_REASON = "check under construction in this revision (design in DESIGN.md section 3); not claimed until its harness is committed and has run clean end-to-end"
 
